@@ -179,7 +179,8 @@ def run_check(prop, tier, seed, replay=None):
     except Exception as e:  # the pin file is an aid, never a reason to fail
         changed_src = []
         deepen = {"error": f"{type(e).__name__}: {e}"}
-    if changed_src and driver_ok and not replay and os.environ.get("VERIF_DEEPEN", "1") != "0":
+    force = os.environ.get("VERIF_DEEPEN", "1") == "force"   # development: hunt for latent false alarms on a clean tree
+    if (changed_src or force) and driver_ok and not replay and os.environ.get("VERIF_DEEPEN", "1") != "0":
         budget = float(os.environ.get("VERIF_DEEPEN_S", "40" if tier == "quick" else "300"))
         t_d, n0, rounds = time.time(), outcome.evaluations, 0
 
